@@ -107,7 +107,10 @@ EXPORT_KEYS = ["transcript_id", "transcript_name", "transcript_biotype", "protei
                "feature_collection_id"]
 
 
-def gen_qualifiers(rng, max_keys=3, keys=None, vals=None, p_none=0.35, collide_p=0.12):
+TYPED_VALS = [[3], [3, 12], [0], [2.5], [1.0, 2.5], [True], [True, False], [False]]
+
+
+def gen_qualifiers(rng, max_keys=3, keys=None, vals=None, p_none=0.35, collide_p=0.12, typed_p=0.0):
     """collide_p: probability that a key is one of the names the exporters also derive from attributes (a legal
     free-form qualifier whose key collides with an export key)."""
     if rng.random() < p_none:
@@ -123,6 +126,9 @@ def gen_qualifiers(rng, max_keys=3, keys=None, vals=None, p_none=0.35, collide_p
             v = rng.choice(vals)
             if v not in vs:
                 vs.append(v)
+        if typed_p and rng.random() < typed_p:
+            # values that are not text: the data model declares Union[int, str, bool, float] (one type per key here)
+            vs = list(rng.choice(TYPED_VALS))
         q[k] = vs
     return q
 
